@@ -34,7 +34,9 @@ TStep ==
        THEN /\ UNCHANGED savars /\ UNCHANGED seen
             /\ Verdict("STUCK", [v |-> "STUCK", tid |-> Tr.id, l |-> l, ev |-> ev])
        ELSE /\ EvNext(ev)
-            /\ seen' = seen \cup ToSet(br')
+            /\ seen' = seen \cup ToSet(br') \cup (IF ev.e = "sibling" THEN {"Sibling"} ELSE {})
+                            \cup (IF ev.e = "iter" /\ "av" \in DOMAIN ev /\ (ev.av # -1 \/ ev.ad # -1) /\ out' # <<>>
+                                  THEN {"Assign"} ELSE {})
             /\ LET d == Diffs(ev, o) IN
                IF d # {}
                THEN Verdict("MISMATCH", [v |-> "MISMATCH", tid |-> Tr.id, l |-> l, clauses |-> d, br |-> br',
